@@ -10,6 +10,9 @@ CASES = {
     "StartHidden": ("HiddenResult", "HiddenMeta", "acme.lab_v1.types.HiddenResult", "acme.lab_v1.types.HiddenMeta"),           # relative, file NOT imported
     "StartHiddenFq": ("acme.lab.v1.HiddenResult", "acme.lab.v1.HiddenMeta", "acme.lab_v1.types.HiddenResult", "acme.lab_v1.types.HiddenMeta"),
     "StartEmpty": ("google.protobuf.Empty", "SameMeta", "google.protobuf.empty_pb2.Empty", "acme.lab_v1.types.SameMeta"),       # Empty result
+    # same response type as StartEmpty / StartSame, other metadata type (an OperationInfo must not be shared by response type)
+    "StartEmptyOtherMeta": ("google.protobuf.Empty", "BrewMeta", "google.protobuf.empty_pb2.Empty", "acme.lab_v1.types.BrewMeta"),
+    "StartSameOtherMeta": ("SameResult", "acme.lab.v1.HiddenMeta", "acme.lab_v1.types.SameResult", "acme.lab_v1.types.HiddenMeta"),
     "StartNested": ("acme.lab.v1.Outer.Inner", "SameMeta", "acme.lab_v1.types.Outer.Inner", "acme.lab_v1.types.SameMeta"),     # nested message
 }
 
